@@ -99,7 +99,7 @@ func Load(cfg Config) (*Engine, error) {
 		tags = "verif"
 	}
 	pcfg := &packages.Config{
-		Mode:       packages.LoadAllSyntax,
+		Mode:       packages.LoadAllSyntax | packages.NeedModule,
 		Dir:        cfg.RepoDir,
 		BuildFlags: []string{"-tags=" + tags},
 		Overlay:    overlay,
